@@ -106,10 +106,10 @@ CHECKS['C08'] = {
 }
 
 CHECKS['C14'] = {
-    'jobs': {'quick': [J('c14_resolver.cpp', ['K=3'], wall=280, markers=(1, 2))],
-             'thorough': [J('c14_resolver.cpp', ['K=4'], wall=1700, markers=(1, 2))]},
+    'jobs': {'quick': [J('c14_resolver.cpp', ['K=3', 'PROTO=0', 'SMALL'], wall=280, markers=(1, 2)), J('c14_resolver.cpp', ['K=2', 'PROTO=1'], wall=120, markers=(1, 2))],
+             'thorough': [J('c14_resolver.cpp', ['K=4', 'PROTO=0'], wall=1700, markers=(1, 2)), J('c14_resolver.cpp', ['K=3', 'PROTO=1'], wall=900, markers=(1, 2))]},
     'bounds': {'quick': 'K=3 operations from {resolve host name (3 names; latency 0/1us or symbolic 1ns..1s; 1-2 addresses or host_not_found), resolve IPv4 literal, resolve IPv6 literal, cancel(), '
-                        'cancel() from inside the next completion handler} issued at symbolic instants (gap 0 or 1ns..300ms) on a TCP or a UDP resolver; services 80/0/65535',
+                        'cancel() from inside the next completion handler} issued at symbolic instants (gap 0 or 1ns..300ms) on a TCP resolver (K=3) and a UDP resolver (K=2); services 80/0/65535 on the first resolve',
                'thorough': 'K=4'},
     'outside': ['longer sequences', 'moved resolvers'],
     'assumptions': [],
@@ -159,6 +159,22 @@ CHECKS['C13'] = {
     'bounds': {'quick': 'NAT placement none / client 0 / both clients / both clients behind one external address / client 0 and the server; UDP: 3 datagrams (symbolic payload) from two senders, receiver-side sender endpoint, payload, order and arrival time; '
                         'TCP: 2 connections, remote_endpoint()/local_endpoint() on all four sockets, accept peer endpoint, one byte each way', 'thorough': 'plus IPv6'},
     'outside': ['more than 2 nodes behind one NAT', 'NAT in incoming routes (the library documents NAT hops on outgoing routes only)'],
+    'assumptions': [],
+}
+
+CHECKS['C20'] = {
+    'jobs': {'quick': [J('c05_tcp.cpp', ['LEN=5', 'LOSS=0', 'DIR=0', 'MTU=2'], wall=120, markers=(1, 2)),
+                       J('c05_tcp.cpp', ['LEN=5', 'LOSS=0', 'DIR=1', 'MTU=2'], wall=120, markers=(1, 2)),
+                       J('c05_tcp.cpp', ['LEN=5', 'LOSS=0', 'DIR=1', 'MTU=3000'], wall=120, markers=(1, 2)),
+                       J('c08_udp.cpp', ['SCEN=3'], wall=120, markers=(1, 2, 3))],
+             'thorough': [J('c05_tcp.cpp', ['LEN=8', 'LOSS=1', 'DROPS=2', 'DIR=0', 'MTU=3'], wall=900, markers=(1, 2)),
+                          J('c05_tcp.cpp', ['LEN=8', 'LOSS=1', 'DROPS=2', 'DIR=1', 'MTU=3'], wall=900, markers=(1, 2)),
+                          J('c05_tcp.cpp', ['LEN=5', 'LOSS=0', 'DIR=1', 'MTU=3000'], wall=120, markers=(1, 2)),
+                          J('c08_udp.cpp', ['SCEN=3'], wall=120, markers=(1, 2, 3))]},
+    'bounds': {'quick': 'TCP: path MTU 2 and 3000 reported by the configuration, 5 symbolic bytes, both directions (connector sends / accepted socket sends), all write chunkings and layouts of c05_tcp; a probe on the route checks '
+                        'every payload segment <= MTU, content and order checked by the reader. UDP: MTU in {2,3,1475}, datagram length around the limit, don\'t-fragment never touched / set / set then cleared',
+               'thorough': 'MTU 3 with 8 bytes and segment faults (retransmitted segments are checked too)'},
+    'outside': ['per-address-pair MTU tables with more than two nodes', 'MTU changing during a connection (the property fixes it at connect time)'],
     'assumptions': [],
 }
 
